@@ -30,6 +30,21 @@ claimed = {
  "C05": dict(engine="vsched", tech=SCHED+"; blocking decided by the scheduler, never by a clock", ref="§3/C05",
    text="The same exhaustive schedule exploration judged by the stuck-call oracle (a parked call is legitimate only if the linearized final state does not permit it to proceed), well-formed pipelines must terminate with everything consumed, and the constructor ladder N=0..64 runs under the scheduler so that a self-deadlock is a scheduler fact.",
    note="same bounds as C04"),
+ "C09": dict(engine="enum", tech=ENUM+"; the ranking function and the random source are environments whose every answer sequence is enumerated", ref="§3/C09",
+   text="Every array of length 0..9 over 4 values (tagged by position) under four rankers, every answer sequence of an arbitrary ranking function for lengths 0..6, a deterministic ladder of every length to 600 in five shapes, every random answer sequence of ShuffleValues up to length 5, and the Array/List/Catalog methods against the sorter, all on the real sorter; termination by fuel.",
+   note="the sampling clause (random arrays up to 5000) is replaced by the deterministic ladder"),
+ "C15": dict(engine="enum", tech=ENUM, ref="§3/C15",
+   text="All pairs of subsets of a 6-value universe (and the same object twice) times And/Or/Sans/Xor for int and string, all pairs over smaller universes for []int, any, sets of sets and for reversed/coarse collators, on the real class functions; operand dumps compared before/after and results and operands mutated afterwards to expose shared state.",
+   note="operands with different collators are not generated"),
+ "C16": dict(engine="enum", tech=ENUM, ref="§3/C16",
+   text="All pairs of lists up to length 4 over 3 values, all pairs of catalogs over ordered subsets of 4 keys with operand-specific values (incl. zero values under present keys), every catalog over 3 keys times every key sequence up to length 3 over 4 keys; the expected result is computed from the documented law; purity by private-state dumps and subsequent mutation.",
+   note="string keys, int values"),
+ "C18": dict(engine="enum", tech=ENUM, ref="§3/C18",
+   text="The full aliasing matrix: every constructor and accessor of the seven kinds that accepts or returns a Go array, Go map or sequence, sizes 0..4, every position, three mutation modes, observed through private-state dumps; every bulk operation with the receiver or a view of it as operand compared with the call on an independent copy.",
+   note="Catalog association objects are live handles by design (not treated as aliasing)"),
+ "C20": dict(engine="enum", tech=ENUM+"; every call runs as a one-thread program under the scheduler", ref="§3/C20",
+   text="The cross product of the eight universal constructors, every documented argument form, notation argument absent/first/last, seven element/key types and contents of size 0..20 is compared differentially with the class-level constructor or with ParseSource; Association(k,v) for all 49 type pairs.",
+   note="source text produced by FormatValue on the class-level collection"),
  "C13": dict(engine="seqx", tech=SEQX, ref="§3/C13",
    text="Every reachable stack content for capacities 1..4 (7 thorough) times every operation, plus all constructors with 0..33 initial values followed by pushes past capacity and pops past empty, on the real Stack against a slice model with a capacity.",
    note="two pushed values; capacities as listed"),
